@@ -645,6 +645,23 @@ def m_opt_ok_or_else(I, st, call):
     return out
 
 
+@model("core::option::Option::<T>::map_or")
+def m_opt_map_or(I, st, call):
+    sp = _opt_arg(I, st, call)
+    if sp is None:
+        return None
+    out = []
+    for s, vi, p in sp:
+        if vi == 0:
+            out.append((s, call.args[1]))
+        else:
+            rs = call_fn_value(I, s, call, call.args[2], call.arg_tys[2], [p.fields[0]], "map_or")
+            if rs is None:
+                return None
+            out.extend(rs)
+    return out
+
+
 @model("core::option::Option::<T>::map_or_else")
 def m_opt_map_or_else(I, st, call):
     sp = _opt_arg(I, st, call)
